@@ -24,6 +24,22 @@ def emit(ctx, G, maxlen, minlen=3):
     return [r for r in res.records if r.get("k") == "ctor2"]
 
 
+def emit_named(ctx):
+    """spec/MC_Ctor2.tla: the named many-cornered polygons with two entries exchanged, classified exactly."""
+    cfg = ("SPECIFICATION SpecNamed\nINVARIANT T1_ValidIsNotInvalid\nINVARIANT Emit\nCHECK_DEADLOCK FALSE\n"
+           "CONSTANTS\n G = 8\n MinLen = 3\n MaxLen = 99\n EmitOn = TRUE\n")
+    res = tlc.run("MC_Ctor2", cfg, timeout=900)
+    ctx.tlc(res, "MC_Ctor2: named polygons (6-16 vertices) with two entries exchanged, classified by Ctor2")
+    if res.violated:
+        ctx.violation({"cls": "spec", "obs": res.violated, "tags": ["T1"], "msg": "classifier inconsistency in MC_Ctor2.tla"},
+                      {"tlc_tail": res.stdout[-2000:]})
+    seen = {}
+    for r in res.records:
+        if r.get("k") == "ctor2":
+            seen.setdefault(json.dumps(r["v"]), r)
+    return list(seen.values())
+
+
 def _internal_arrays(obj):
     import numpy as np
     out = []
